@@ -16,6 +16,10 @@ SEEDED = os.path.join(ROOT, 'seeded')
 REVERT_PROPS = json.load(open(os.path.join(SEEDED, 'reverts', 'props.json'))) if os.path.exists(os.path.join(SEEDED, 'reverts', 'props.json')) else {}
 
 
+# further properties whose statement a change also contradicts (the property it was written for is always run)
+ALSO = json.load(open(os.path.join(SEEDED, 'also.json'))) if os.path.exists(os.path.join(SEEDED, 'also.json')) else {}
+
+
 def sh(cmd, **kw):
     return subprocess.run(cmd, shell=True, stdout=subprocess.PIPE, stderr=subprocess.STDOUT, text=True, check=False, **kw)
 
@@ -25,7 +29,7 @@ def items():
     for d in sorted(os.listdir(SEEDED)):
         p = os.path.join(SEEDED, d, 'patch.diff')
         if re.match(r'C\d\d-m\d+$', d) and os.path.exists(p):
-            out.append((d, p, [d[:3]]))
+            out.append((d, p, [d[:3]] + ALSO.get(d, [])))
     rv = os.path.join(SEEDED, 'reverts')
     if os.path.isdir(rv):
         for f in sorted(os.listdir(rv)):
